@@ -14,7 +14,7 @@ import (
 
 func c02Scenarios(tier string) []*hist.Scenario {
 	var out []*hist.Scenario
-	cfgs := [][2]int64{{1, 1}, {2, 1}, {2, 2}}
+	cfgs := [][2]int64{{1, 1}, {2, 2}, {2, 1}}
 	add := func(fam string, init, al []string, n, k, y int, ti [2]int64) {
 		out = append(out, &hist.Scenario{
 			Name: fmt.Sprintf("c02/%s/%s/snap%d-%d/N%dL1K%dY%dE1", fam, strings.Join(al, "+"), ti[0], ti[1], n, k, y),
@@ -27,7 +27,7 @@ func c02Scenarios(tier string) []*hist.Scenario {
 		// one writer + one late (snapshot-fed) client which then edits concurrently
 		for _, f := range coreFamilies() {
 			for _, op := range f.ops {
-				for _, ti := range cfgs {
+				for _, ti := range cfgs[:2] {
 					add(f.name, f.init, []string{op}, 1, 2, 3, ti)
 				}
 			}
@@ -183,7 +183,7 @@ func init() {
 	registerH(spec, &Check{
 		Level: "exploration",
 		Rule: "every normal-form history of <=K edits, <=Y syncs, one late attach at any position and <=1 snapshot-cache eviction at any position, " +
-			"for project (snapshot threshold, interval) in {(1,1),(2,1),(2,2)}; edits after the late attach land on the snapshot-fed replica; " +
+			"for project (snapshot threshold, interval) in {(1,1),(2,2)} (thorough: also (2,1)); edits after the late attach land on the snapshot-fed replica; " +
 			"oracle: snapshot-fed and change-fed replicas and the server rebuild agree after the quiescent closure and whenever two replicas are at the same checkpoint, " +
 			"clone==root, and the server rebuild at EVERY serverSeq 1..head (cold cache, warm descending, warm ascending) equals an independent one-by-one replay of the stored change log; " +
 			"non-trivial = concurrent edits by different clients",
